@@ -281,7 +281,8 @@ fn build_type(
     let (packed, alignment) = if *packed {
         (quote! { , packed }, quote! {})
     } else {
-        let alignment: syn::Index = alignment.into();
+        // not `syn::Index`, which panics above `u32::MAX`
+        let alignment = proc_macro2::Literal::usize_unsuffixed(alignment);
         (quote! {}, quote! { , align(#alignment) })
     };
 
